@@ -14,7 +14,7 @@ from lib import *
 
 # files of harness/codecdrv reused verbatim (after the rewrites below)
 SHARED = ["main.go", "val.go", "gen.go", "schema.go", "defaults.go", "refdoc.go",
-          "c01.go", "c04.go", "c06.go", "c07.go", "c11.go", "c13.go"]
+          "c01.go", "c04.go", "c06.go", "c07.go", "c11.go", "c13.go", "c10.go", "c16.go"]
 
 REWRITES = [
     ("github.com/PapaCharlie/go-restli/v2/", "github.com/PapaCharlie/go-restli/"),
@@ -31,6 +31,17 @@ REWRITES = [
     # root-specific toGo / fromGo (harness/rootdrv/root_val.go) handle records and delegate everything else to these
     ("func (s *Schema) toGo(", "func (s *Schema) toGoShared("),
     ("func (s *Schema) fromGo(", "func (s *Schema) fromGoShared("),
+    # C10 / C16: the cases-file headers are root-specific (harness/rootdrv/root_hash.go: RootHashCorr / RootKeySetCorr, complex-key list)
+    ("func c10Header(", "func c10HeaderShared("),
+    ("func c16Header(", "func c16HeaderShared("),
+    # root: BatchResponse lives in restlidata (v2: restlidata/generated/com/linkedin/restli/common); applied after the v2/ rewrite
+    ('"github.com/PapaCharlie/go-restli/restlidata/generated/com/linkedin/restli/common"', 'common "github.com/PapaCharlie/go-restli/restlidata"'),
+]
+
+# cosmetic (failure sites name the root files); not required to match
+COSMETIC = [
+    ("(v2/codegen/types/", "(codegen/types/"), (" v2/fnv1a/", " fnv1a/"), ('"v2/restli/', '"restli/'),
+    ('"v2/restlidata/generated/com/linkedin/restli/common/structs.go:136-176"', '"restlidata/structs.go:112-152"'),
 ]
 
 
@@ -144,6 +155,8 @@ def build_driver(work):
         src = open(os.path.join(HARNESS, "codecdrv", f)).read()
         for i, (a, b) in enumerate(REWRITES):
             hits[i] += src.count(a)
+            src = src.replace(a, b)
+        for a, b in COSMETIC:
             src = src.replace(a, b)
         open(os.path.join(drv, f), "w").write(src)
     stale = [REWRITES[i][0] for i, h in enumerate(hits) if h == 0]
